@@ -100,6 +100,48 @@ def run(chk):
         if ints(v) != exp:
             chk.disagree("cell shape", {"meta": m, "impl": exp, "model": ints(v)})
 
+    # ---- (a2) cells far out on the time axis and almost (but not exactly) on the grid: with an exact polynomial eta the cell is the
+    # second difference of that polynomial AT THE REQUESTED POSITION (exact rational arithmetic as the oracle) --------------------------------
+    for it in range(24 if thorough else 12):
+        a, b, c = rng.randint(-3, 3), rng.choice([-2, -1, 1, 2]), rng.randint(-3, 3)
+        corr = PolyEta((a, b, c))
+        k = [300, 500, 2000, 40][it % 4]
+        off = [4e-3, -2e-3, 1e-2, 3e-4][(it // 4) % 4] if it % 3 != 2 else 0.3
+        shape = ["square", "rectangle"][it % 2]
+        F = Fraction
+        dq = F(dl)
+        t1q = F(float((k + off) * dl)) if shape != "rectangle" or it % 4 == 1 else F(k) * dq
+        t2q = None
+        if shape == "rectangle":
+            t2q = F(float((k + 2 + off) * dl))
+        eta_q = lambda t: (F(a) * t * t + F(b) * t * t * t, F(c) * t)
+        E = lambda t: complex(float(eta_q(t)[0]), float(eta_q(t)[1]))
+        # exact cell values
+        def cplx(pairs):
+            re = sum(sg * eta_q(t)[0] for sg, t in pairs)
+            im = sum(sg * eta_q(t)[1] for sg, t in pairs)
+            return complex(float(re), float(im))
+        if shape == "upper-triangle":
+            want = cplx([(1, t1q + dq), (-1, t1q)])
+        elif shape == "square":
+            want = cplx([(1, t1q + dq), (-2, t1q), (1, t1q - dq)])
+        else:
+            want = cplx([(1, t2q), (-1, t2q - dq), (-1, t1q), (1, t1q - dq)])
+        info = {"kind": "far-cell", "shape": shape, "k": k, "offset": off, "coeffs": [a, b, c]}
+        chk.search_cases += 1
+        chk.count("search_far_cell")
+        chk.case(info, ("far", shape, k, off, a, b, c))
+        try:
+            got = complex(corr.correlation_2d_integral(dl, float(t1q), None if t2q is None else float(t2q), shape=shape))
+            # float evaluation of a cubic at t ~ 250 loses ~1e-16 * t^3 absolutely; the cells are O(t) .. O(t^2)
+            tol = 1e-13 * abs(b) * float(t1q + 1) ** 3 + 1e-13 * abs(a) * float(t1q + 1) ** 2 + 1e-12
+            if abs(got - want) > tol:
+                chk.fail("far-cell-vs-exact", f"CustomSD.correlation_2d_integral('{shape}', delta={dl}, time_1={float(t1q)!r}, time_2={None if t2q is None else float(t2q)!r}) with "
+                         f"eta(t) = {a} t^2 + {b} t^3 + {c} i t gives {got!r}; the exact cell at the requested position is {want!r} "
+                         f"(difference {abs(got - want):.3g}, rounding allows {tol:.3g})", info)
+        except Exception as ex:
+            chk.fail("correlations-raise", f"raises {ex!r}", info)
+
     # ---- (b) closed forms by interval arithmetic inside Coq ------------------------------------------
     samples = []
     for it in range(10 if thorough else 5):
